@@ -765,7 +765,9 @@ func (d *bincDecDriver[T]) DecodeExt(rv interface{}, basetype reflect.Type, xtag
 	}
 	if ext == SelfExt {
 		xbs = d.d.sideDecodeInput(xbs, state)
-		sideDecode(d.h, &d.h.sideDecPool, func(sd decoderI) { oneOffDecode(sd, rv, xbs, basetype, true) })
+		d.d.depthIncr() // the payload nests a value like a container does
+		sideDecode(d.h, &d.h.sideDecPool, func(sd decoderI) { oneOffDecode(sd, rv, xbs, basetype, true, d.d.depth) })
+		d.d.depthDecr()
 	} else {
 		ext.ReadExt(rv, xbs)
 	}
